@@ -32,6 +32,8 @@ def render_form(f, rng, ocr):
     tpl = rng.choice(TEMPL[f["tmpl"]])
     ns = f["ns"] if f["ns"] != "-" else ""
     ew = f["ew"] if f["ew"] != "-" else ""
+    # look-alike characters only where the OCR pattern can read them (spec/TwpRgeLex.tla :: OcrReadable)
+    ocr = ocr and f["ns"] != "-" and f["ew"] != "-" and f["tmpl"] != "bare" and f["r"] != 2
     t = ocr_num(f["t"], rng) if ocr else str(f["t"])
     r = ocr_num(f["r"], rng) if ocr else str(f["r"])
     if f["tmpl"] == "T.,R." and (not ns or not ew):
@@ -225,8 +227,7 @@ def run(ctx):
                 if fb[ax] != "-":
                     fb[ax] = ea[ax]
             b = dict(b, forms=[fb])
-        ocr = a["ocr"] and all(f["ns"] != "-" and f["ew"] != "-" and f["tmpl"] != "bare" and f["r"] != 2
-                               for f in (a["forms"][0], b["forms"][0]))
+        ocr = a["ocr"]
         dn = {"N": "N", "S": "S"}[a["dflt"]["ns"]]
         d = {"ns": dn, "ew": a["dflt"]["ew"]}
         eff = {"ns": d["ns"] if a["src"]["ns"] != "unset" else "N", "ew": d["ew"] if a["src"]["ew"] != "unset" else "W"}
